@@ -86,6 +86,21 @@ theorem sampleConMu_generated (mu : α) (Nl N : M3 α) : Gen.calc_sample_con_mu 
     · simp only [hs, if_true]; rfl
     · simp only [hs]; rfl
 
+/-! the three branches with a square root inside the guarded expression: `math.sqrt` first (`pySqrt`), then `bound`; in the two reference
+branches the guarded value is kept and each branch of the if / else applies its own inverse function once -/
+
+theorem refConMuEta_generated (mu eta psi theta : α) (N : M3 α) :
+    Gen.calc_sample_ref_con_mu_eta mu eta psi theta N = Solver.refConMuEta mu eta psi theta N := rfl
+
+theorem refConChiEta_generated (chi eta psi theta : α) (N : M3 α) :
+    Gen.calc_sample_ref_con_chi_eta chi eta psi theta N = Solver.refConChiEta chi eta psi theta N := rfl
+
+theorem sampleConChiPhi_generated (chi phi qaz theta : α) (N : M3 α) :
+    Gen.calc_sample_con_chi_phi chi phi qaz theta N = Solver.sampleConChiPhi chi phi qaz theta N := rfl
+
+theorem sampleConOmegaBisect_generated (omega qaz theta : α) (N : M3 α) :
+    Gen.calc_sample_con_omega_bisect omega qaz theta N = Solver.sampleConOmegaBisect omega qaz theta N := rfl
+
 /-! the numeric primitives everything else is built from (`util.py`): the tolerance constant, `bound`, `sign` -/
 
 theorem small_generated : (Gen.small_const : α) = Scalar.SMALL := rfl
